@@ -16,7 +16,6 @@
       step's value if declared, else the batch block's, else nothing;
     - [C15_holds c o] / [C15_ok c o] is the monitor that the check evaluates on
       the IMPLEMENTATION's scripts. *)
-From Coq Require Import List NArith Bool.
 From MWF Require Import Base.Str Gen.HeaderData Sched.Header Sched.Launcher Sched.Readers Sched.C15Proofs
   Sched.LsfProofs Sched.FluxProofs.
 Import ListNotations.
@@ -78,13 +77,13 @@ Theorem C15_header_slurm : forall c text, header_reads c text ->
   forall k, In k [RNodes; RTasks; RWalltime; RQueue; RBank; RReservation; RGpus; RExclusive; RQos] ->
     read_sbatch text k = effective_slurm (c_batch c) (c_step c) k
     /\ (count_key k (read_sbatch_all text) <= 1)%nat.
-Proof. intros c text H. exact H. Qed.
+Proof. exact (fun c text H => H). Qed.
 Print Assumptions C15_header_slurm.
 
 Theorem C15_launcher_slurm : forall c ps text, launcher_reads c ps text ->
   containsb launcher_var (script_body text) = false /\
   match_body (launch_ok_slurm (c_step c)) (ps ++ [PText [nl]]) (script_body text) = true.
-Proof. intros c ps text H. exact H. Qed.
+Proof. exact (fun c ps text H => H). Qed.
 Print Assumptions C15_launcher_slurm.
 
 Theorem C15_reject : forall c,
@@ -134,13 +133,13 @@ Theorem C15_header_lsf : forall c text, lsf_header_reads c text ->
   lsf_walltime_ok (effective (c_batch c) (c_step c) RWalltime) (read_bsub text RWalltime) = true /\
   (forall k, In k [RWalltime; RNodes; RTasks; RQueue; RBank; RReservation; RGpus; RExclusive; RQos] ->
      (count_key k (read_bsub_all text) <= 1)%nat).
-Proof. intros c text H. exact H. Qed.
+Proof. exact (fun c text H => H). Qed.
 Print Assumptions C15_header_lsf.
 
 Theorem C15_launcher_lsf : forall c ps text, lsf_launcher_reads c ps text ->
   containsb launcher_var (script_body text) = false /\
   match_body (launch_ok_lsf (c_step c)) (ps ++ [PText [nl]]) (script_body text) = true.
-Proof. intros c ps text H. exact H. Qed.
+Proof. exact (fun c ps text H => H). Qed.
 Print Assumptions C15_launcher_lsf.
 
 Theorem C15_total_lsf : forall c, H15 c = true -> c_be c = Lsf ->
@@ -176,13 +175,13 @@ Theorem C15_header_flux : forall c text, flux_header_reads_p c text ->
   first_line text = shebang_of (c_batch c) /\
   read_flux_info text (s "nodes") = effective_flux_nodes (c_batch c) (c_step c) /\
   flux_walltime_ok (effective (c_batch c) (c_step c) RWalltime) (read_flux_info text (s "walltime")) = true.
-Proof. intros c text H. exact H. Qed.
+Proof. exact (fun c text H => H). Qed.
 Print Assumptions C15_header_flux.
 
 Theorem C15_launcher_flux : forall c ps text, flux_launcher_reads c ps text ->
   containsb launcher_var (script_body text) = false /\
   match_body (launch_ok_flux (c_batch c) (c_step c)) (ps ++ [PText [nl]]) (script_body text) = true.
-Proof. intros c ps text H. exact H. Qed.
+Proof. exact (fun c ps text H => H). Qed.
 Print Assumptions C15_launcher_flux.
 
 (** ** C15_total: for every case of the domain, whatever the back-end, script
@@ -192,26 +191,14 @@ Theorem C15_total : forall c, H15 c = true ->
   (schedulable (c_step c) = true ->
      K6_batch_gpus c = false /\ K6_lsf_header c = false /\ K6_lsf_nodes_only c = false) ->
   run_model c <> OExc Internal.
-Proof.
-  intros c H K. destruct (c_be c) eqn:BE.
-  - apply C15_total_lemma; auto. left. split; auto. intros SC. apply K; auto.
-  - apply C15_total_lsf_lemma; auto. intros SC. destruct (K SC) as [_ [A B]]. auto.
-  - apply C15_total_flux_lemma; auto.
-  - apply C15_total_lemma; auto.
-Qed.
+Proof. exact C15_total_all. Qed.
 Print Assumptions C15_total.
 
 (** the monitor, all back-ends *)
 Theorem C15_monitor : forall c,
   K6_batch_gpus c = false -> K6_lsf_header c = false -> K6_lsf_nodes_only c = false ->
   C15_ok c (run_model c) = true.
-Proof.
-  intros c A B C. destruct (c_be c) eqn:BE.
-  - apply C15_ok_slurm; auto.
-  - apply C15_ok_lsf; auto.
-  - apply C15_ok_flux; auto.
-  - apply C15_ok_local; auto.
-Qed.
+Proof. exact C15_ok_all. Qed.
 Print Assumptions C15_monitor.
 
 (** ** The scanner was written against these regex texts (T-data) *)
